@@ -469,6 +469,8 @@ def children(t):
         return tuple(a for a in t.args[1:] if isinstance(a, T))
     if op in ("imod", "idiv"):
         return (t.args[0],)
+    if op in ("fconst", "fminpos"):
+        return ()
     return tuple(a for a in t.args if isinstance(a, T))
 
 
@@ -619,6 +621,16 @@ def pretty(t, depth=0):
         return "%s(%s)" % (op, p(t.args[0]))
     if op in ("imod", "idiv"):
         return "%s(%s, %d)" % (op, p(t.args[0]), t.args[1])
+    if op == "fconst":
+        return repr(t.args[1]) + ("f" if t.sort == "F32" else "d")
+    if op == "fminpos":
+        return "minpos"
+    if op in ("fadd", "fsub", "fmul", "fdiv"):
+        return "(%s %s.%s %s)" % (p(t.args[0]), op[1:], t.args[2], p(t.args[1]))
+    if op == "fneg":
+        return "-%s" % p(t.args[0])
+    if op == "fcmp":
+        return "(%s %s %s)" % (p(t.args[1]), t.args[0], p(t.args[2]))
     return "<%s>" % op
 
 
@@ -709,3 +721,44 @@ def evaluate(t, env, funcs=None, memo=None):
         return r
 
     return go(t)
+
+
+# ----------------------------------------------------------------------------------------------
+# IEEE floating point terms (QF_FP), used only by the bin-search kernel checks (DESIGN 3.4)
+
+def fvar(name, prec="F32"):
+    return _mk("var", (name,), prec)
+
+
+def fconst(value, prec="F32"):
+    import struct
+
+    if prec == "F32":
+        bits = struct.unpack(">I", struct.pack(">f", float(value)))[0]
+        return _mk("fconst", (bits, float(struct.unpack(">f", struct.pack(">f", float(value)))[0])), prec)
+    bits = struct.unpack(">Q", struct.pack(">d", float(value)))[0]
+    return _mk("fconst", (bits, float(value)), prec)
+
+
+def fop(op, a, b, rm="RNE"):
+    """op in add, sub, mul, div"""
+    return _mk("f" + op, (a, b, rm), a.sort)
+
+
+def fneg(a):
+    return _mk("fneg", (a,), a.sort)
+
+
+def fcmp(op, a, b):
+    """op in leq, lt, geq, gt, eq"""
+    return _mk("fcmp", (op, a, b), "B")
+
+
+def fnextup(a):
+    """next representable value above a (finite a): a + smallest positive, rounded toward +oo."""
+    tiny = _mk("fminpos", (), a.sort)
+    return _mk("fadd", (a, tiny, "RTP"), a.sort)
+
+
+def is_fp(t):
+    return t.sort in ("F32", "F64")
